@@ -25,6 +25,12 @@ func deepCopy(v interface{}) interface{} {
 			o[i] = bson.E{Key: x[i].Key, Value: deepCopy(x[i].Value)}
 		}
 		return o
+	case *bson.D:
+		if x == nil {
+			return x
+		}
+		o := deepCopy(*x).(bson.D)
+		return &o
 	case bson.M:
 		o := bson.M{}
 		for k, val := range x {
@@ -282,6 +288,39 @@ func AliasScenarios(e *Env) int {
 				cur.All(ctx, &specs)
 			}
 			return []interface{}{name, specs} // ListSpecifications is documented as not implemented
+		}},
+		// arguments handed over as *bson.D: filter, update and replacement documents are copied like any other
+		{"UpdateOne(*bson.D)", func() []interface{} {
+			return []interface{}{&bson.D{{Key: "_id", Value: docID(50)}, {Key: "emb", Value: bson.D{{Key: "x", Value: int32(1)}, {Key: "l", Value: bson.A{int32(1)}}}}},
+				&bson.D{{Key: "$set", Value: bson.D{{Key: "arr", Value: bson.A{int32(1), bson.D{{Key: "y", Value: int32(2)}}}}}}, {Key: "$inc", Value: bson.D{{Key: "emb.x", Value: int32(1)}}}},
+				&bson.D{{Key: "_id", Value: docID(51)}}, &bson.D{{Key: "r", Value: bson.A{bson.D{{Key: "s", Value: int32(1)}}}}}}
+		}, func(e *Env, a []interface{}) []interface{} {
+			up := options.Update().SetUpsert(true)
+			c.UpdateOne(ctx, a[0], a[1], up) // upsert: the embedded filter value becomes part of the stored document
+			c.UpdateOne(ctx, a[2], a[1], up) // the same update document again for another document
+			c.UpdateMany(ctx, bson.D{}, a[1])
+			c.ReplaceOne(ctx, a[2], a[3])
+			var d1 bson.D
+			c.FindOneAndUpdate(ctx, a[0], a[1]).Decode(&d1)
+			c.FindOneAndReplace(ctx, a[2], a[3]).Decode(&d1)
+			c.InsertOne(ctx, &bson.D{{Key: "_id", Value: docID(52)}, {Key: "p", Value: bson.A{bson.D{{Key: "q", Value: int32(1)}}}}})
+			return []interface{}{d1}
+		}},
+		// Distinct over array fields whose elements are stored out of order, one of them grown by $addToSet
+		{"Distinct(array fields)", func() []interface{} { return []interface{}{bson.D{{Key: "tags", Value: bson.D{{Key: "$exists", Value: true}}}}, bson.D{{Key: "_id", Value: docID(60)}}} }, func(e *Env, a []interface{}) []interface{} {
+			ct := e.coll("d.tg")
+			ct.InsertOne(ctx, bson.D{{Key: "_id", Value: int32(1)}, {Key: "tags", Value: bson.A{"c", "a", "b"}}})
+			before := e.snapshot()
+			v1, _ := ct.Distinct(ctx, "tags", bson.D{})
+			e.mutateEvent("Distinct(array fields)", "read: one document", before)
+			ct.InsertOne(ctx, bson.D{{Key: "_id", Value: int32(0)}, {Key: "tags", Value: bson.A{"z"}}})
+			ct.UpdateOne(ctx, bson.D{{Key: "_id", Value: int32(0)}}, bson.D{{Key: "$addToSet", Value: bson.D{{Key: "tags", Value: bson.D{{Key: "$each", Value: bson.A{"y", "x"}}}}}}})
+			ct.InsertOne(ctx, bson.D{{Key: "_id", Value: int32(2)}, {Key: "tags", Value: bson.A{"a"}}})
+			before = e.snapshot()
+			v2, _ := ct.Distinct(ctx, "tags", a[0])
+			v3, _ := ct.Distinct(ctx, "tags", bson.D{{Key: "_id", Value: int32(0)}})
+			e.mutateEvent("Distinct(array fields)", "read: several documents", before)
+			return []interface{}{v1, v2, v3}
 		}},
 		{"DeleteOne", func() []interface{} { return []interface{}{bson.D{{Key: "_id", Value: docID(30)}}} }, func(e *Env, a []interface{}) []interface{} {
 			c.DeleteOne(ctx, a[0])
